@@ -608,13 +608,19 @@ def check_interp_xoprob(prog, rep):
         rep.violate("R6-xoprob", construct, "crossover probabilities are computed before the genetic positions are interpolated (stale positions)", where(f, pos_xo[2]),
                     "genpos first", "xoprob first")
         good = False
-    v = pos_gen[1]
-    if not (isinstance(v, ast.Call) and dump(v.func) == "%s.interp_genpos" % gmap and [field_of(a) for a in v.args] == ["vrnt_chrgrp", "vrnt_phypos"]):
+    v = prog.positional_view(pos_gen[1])
+    if isinstance(v, ast.Call) and v.keywords and dump(v.func) == "%s.interp_genpos" % gmap:
+        rep.unrec("R6-xoprob", construct, "interp_genpos called with keywords the package's methods do not agree on: %s" % dump(v)[:60])
+        good = False
+    elif not (isinstance(v, ast.Call) and dump(v.func) == "%s.interp_genpos" % gmap and [field_of(a) for a in v.args] == ["vrnt_chrgrp", "vrnt_phypos"]):
         rep.violate("R6-xoprob", construct, "genetic positions are not gmap.interp_genpos(vrnt_chrgrp, vrnt_phypos): %s" % dump(v)[:60], where(f, pos_gen[2]),
                     "%s.interp_genpos(self._vrnt_chrgrp, self._vrnt_phypos)" % gmap, dump(v)[:60])
         good = False
-    v = pos_xo[1]
-    if not (isinstance(v, ast.Call) and dump(v.func) == "%s.rprob1g" % gfn and len(v.args) == 3 and dump(v.args[0]) == gmap
+    v = prog.positional_view(pos_xo[1])
+    if isinstance(v, ast.Call) and v.keywords and dump(v.func) == "%s.rprob1g" % gfn:
+        rep.unrec("R6-xoprob", construct, "rprob1g called with keywords the package's methods do not agree on: %s" % dump(v)[:60])
+        good = False
+    elif not (isinstance(v, ast.Call) and dump(v.func) == "%s.rprob1g" % gfn and len(v.args) == 3 and dump(v.args[0]) == gmap
             and [field_of(a) for a in v.args[1:]] == ["vrnt_chrgrp", "vrnt_genpos"]):
         what = dump(v.func) if isinstance(v, ast.Call) else dump(v)
         rep.violate("R6-xoprob", construct, "crossover probabilities are %s, not gmapfn.rprob1g(gmap, vrnt_chrgrp, vrnt_genpos) (sequential distances of the "
